@@ -194,11 +194,20 @@ class SyncPool:
     property (GP multi-start optimisation): jobs and results are pickled like the real thing and
     run one after the other in submission order."""
 
-    def __init__(self, processes=None, *a, **k):
+    def __init__(self, processes=None, initializer=None, initargs=(), *a, **k):
+        import pickle
+
         self.processes = processes
         c = _ctx.get()
         if c is not None:
             c.stats["probe_pool_created"] += 1
+        if initializer is not None:
+            # every real worker runs the initializer once, at start-up, on its own (pickled) copy of the arguments;
+            # the simulated workers share one address space (documented fidelity gap), so it runs once
+            f, args = pickle.loads(pickle.dumps((initializer, tuple(initargs))))
+            f(*args)
+            if c is not None:
+                c.stats["probe_pool_initializer_run"] += 1
 
     def map(self, func, iterable, chunksize=None):
         import pickle
